@@ -4,15 +4,14 @@ COQDIR=$(ROOT)/coq
 OCDIR=$(ROOT)/ocaml
 .PHONY: setup coq extract clean forbidden
 setup: coq extract forbidden
-# Files that depend on definitions regenerated from /repo's source (coq/Gen): they are rebuilt from scratch and a
-# failure there does not stop the build - the property checks compile their Props file themselves and report it.
-GENDEP=Gen/TlsConfigGen Gen/PyGen Proofs/Equiv_proofs Equiv/Equiv Gen/ServerGen Proofs/EquivServer_proofs Equiv/EquivServer $(patsubst %,Props/C%,01 02 03 04 05 06 07 08 09 10 11 12 13 14 15 16 17 18 19 20)
+# Files that depend on definitions regenerated from /repo's source (coq/Gen, see translate/chains.json): they are rebuilt
+# from scratch and a failure there does not stop the build - the property checks compile their Props file themselves
+# and report it.
+GENDEP=$(shell python3 $(ROOT)/tools/gen_all.py --gendep)
 coq:
-	mkdir -p $(COQDIR)/Gen && python3 $(ROOT)/translate/tlsconf.py $(COQDIR)/Gen/TlsConfigGen.v
-	python3 $(ROOT)/translate/py2coq.py $(COQDIR)/Gen/PyGen.v
-	python3 $(ROOT)/translate/py2coq_server.py $(COQDIR)/Gen/ServerGen.v
+	python3 $(ROOT)/tools/gen_all.py
 	cd $(COQDIR) && rm -f $(addsuffix .vo,$(GENDEP)) $(addsuffix .glob,$(GENDEP)) $(addsuffix .vos,$(GENDEP)) $(addsuffix .vok,$(GENDEP))
-	cd $(COQDIR) && coq_makefile -f _CoqProject -o Makefile.coq >/dev/null && timeout 3000 $(MAKE) -f Makefile.coq -j16 Extract/Dispatch.vo $$(grep -E '^(Proofs|Spec|Model|Prelude)/|^Equiv/.*Glue' _CoqProject | grep -v 'Equiv.*_proofs' | sed 's/\.v$$/.vo/') > build.log 2>&1 || (tail -40 build.log; exit 1)
+	cd $(COQDIR) && coq_makefile -f _CoqProject -o Makefile.coq >/dev/null && timeout 3000 $(MAKE) -f Makefile.coq -j16 Extract/Dispatch.vo $$(python3 $(ROOT)/tools/gen_all.py --gendep | tr ' ' '\n' | sed 's/$$/.v/' > .gendep.txt; grep -E '^(Proofs|Spec|Model|Prelude|Equiv)/' _CoqProject | grep -v -x -F -f .gendep.txt | sed 's/\.v$$/.vo/') > build.log 2>&1 || (tail -40 build.log; exit 1)
 	cd $(COQDIR) && (timeout 3000 $(MAKE) -k -f Makefile.coq -j16 > build2.log 2>&1 || (echo "note: some source-dependent files did not compile (see coq/build2.log); the property checks will report them"; grep -B2 -A12 "Error" build2.log | head -60; true))
 extract: coq
 	mkdir -p $(OCDIR)/gen && cd $(OCDIR)/gen && timeout 600 coqc -Q $(COQDIR) NV $(COQDIR)/Extract/Extract.v > extract.log 2>&1 || (cat extract.log; exit 1)
